@@ -393,7 +393,8 @@ def wOnDescribe (s : WSess) (e : Env) (resp : Resp) : WSess × Resp :=
   match e.lookup s.path with
   | none => (s, { resp with code := 404 })
   | some st =>
-    if st.sdp == 0 then (s, { resp with code := 404 })
+    if !e.permPull then (s, { resp with code := 403 })       -- s.checkPermission() (owned by C11)
+    else if st.sdp == 0 then (s, { resp with code := 404 })
     else
       let (s, ok) := wParseSdp s (e.sdp st.sdp) st.sdp
       if !ok then (s, { resp with code := 404 })
@@ -424,6 +425,7 @@ def wOnPlay (s : WSess) (r : Req) (e : Env) (resp : Resp) : WSess × List Ev :=
     match e.lookup s.path with
     | none => (s, [.resp { resp with code := 404 }])
     | some _ =>
+      if !e.permPull then (s, [.resp { resp with code := 403 }]) else
       let resp := { resp with range := some r.range }
       -- StartConsume happens inside onPlay, the response is written by `process` afterwards
       ({ s with attached := true, status := .playing, paused := false },
